@@ -15,3 +15,13 @@ __CPROVER_ensures(!(-180.0 < lon1 && lon1 < 180.0 && -180.0 < lon2 && lon2 < 180
                   __CPROVER_return_value == ((lon1 < 0 && lon2 >= 0) ? 1 : (lon1 >= 0 && lon2 < 0) ? -1 : 0))
 /*@ clause post.same_point src=property props=C08 */
 __CPROVER_ensures(!(lon1 == lon2 && !isinf(lon1)) || __CPROVER_return_value == 0)
+/*@ clause post.same_meridian src=property props=C08 */
+/* "unchanged when any longitude is changed by a multiple of 360 degrees": an edge whose two ends are the SAME meridian written one turn
+ * apart (e.g. +180 and -180, 190 and -170) goes nowhere in longitude and crosses nothing.  The domain is where lon -+ 360 is exact in
+ * binary floating point (|result| <= |operand|), so the two arguments denote exactly the same meridian. */
+__CPROVER_ensures(!((180.0 <= lon1 && lon1 <= 540.0 && lon2 == lon1 - 360.0) || (-540.0 <= lon1 && lon1 <= -180.0 && lon2 == lon1 + 360.0) ||
+                    (180.0 <= lon2 && lon2 <= 540.0 && lon1 == lon2 - 360.0) || (-540.0 <= lon2 && lon2 <= -180.0 && lon1 == lon2 + 360.0)) ||
+                  __CPROVER_return_value == 0)
+/*@ clause post.antimeridian src=property props=C08 */
+/* the shorter way round between two longitudes more than 181 degrees apart goes across the antimeridian and never over longitude 0 */
+__CPROVER_ensures(!(-180.0 < lon1 && lon1 < 180.0 && -180.0 < lon2 && lon2 < 180.0 && fabs(lon2 - lon1) >= 181.0) || __CPROVER_return_value == 0)
